@@ -1476,7 +1476,7 @@ class Rotation(torch.nn.Module):
             else:
                 return self.__class__(self._quaternions, inversion=self._is_improper, copy=True)
         elif math.isclose(round(n), n) and round(n) % 2:
-            improper: torch.Tensor | bool = self._is_improper
+            improper: torch.Tensor | bool = self._is_improper[0] if self._single else self._is_improper
         else:
             improper = False
 
